@@ -72,6 +72,17 @@ type ZU8 uint8
 
 func (z *ZU8) IsZero() bool { return *z%2 == 0 }
 
+// ZStr and ZList are a named string and a named slice with an IsZero that is not
+// "has length zero": omitempty has to consult the method for them too (a
+// non-empty value whose IsZero() is true is empty), besides the length.
+type ZStr string
+
+func (z ZStr) IsZero() bool { return len(z)%2 == 1 }
+
+type ZList []string
+
+func (z *ZList) IsZero() bool { return len(*z) >= 2 && (*z)[0] == (*z)[1] }
+
 // ---- Folder (fold side only: output defined by the type) ----
 
 // FolderObj emits an object {"fa": A, "fb": B} (value receiver).
@@ -412,6 +423,8 @@ var Pool = []PoolType{
 	{Name: "ZF64", Type: reflect.TypeOf(ZF64(0))},
 	{Name: "ZFlag", Type: reflect.TypeOf(ZFlag(false))},
 	{Name: "ZU8", Type: reflect.TypeOf(ZU8(0))},
+	{Name: "ZStr", Type: reflect.TypeOf(ZStr(""))},
+	{Name: "ZList", Type: reflect.TypeOf(ZList(nil))},
 	{Name: "WithEmb", Type: reflect.TypeOf(WithEmb{})},
 	{Name: "FRefObj", Type: reflect.TypeOf(FRefObj{})},
 	{Name: "FolderObj", Type: reflect.TypeOf(FolderObj{}), FoldOnly: true},
